@@ -5,7 +5,7 @@ import signal
 import traceback
 
 from .. import hooks, qlang
-from ..backends import Store
+from ..backends import BACKENDS, Store
 from ..gen import canon, mk_dt
 
 ID = "C17"
@@ -18,9 +18,9 @@ RULE = ("query texts of five kinds: (a) random text of length 0-80 over the toke
         "whitespace-only arguments, stray and doubled separators, unbalanced brackets and quotes, trailing commas); "
         "(d) single-fault programs with a known error class (unknown variable/function, too few/many arguments, "
         "wrong top-level argument type for every typed parameter of every built-in, unknown bucket - also one that existed "
-        "and was queried successfully before it was deleted -, curated malformed shapes); (e) long texts: one token of thousands of characters (digit runs straddling the interpreter's int-conversion limit, identifiers, strings, a run of one alphabet character), thousands of statements, and brackets / calls / dict values nested 30-1500 levels deep, balanced or not. Each is run through aw_query.query with an activation budget; non-trivial = the text is "
+        "and was queried successfully before it was deleted -, curated malformed shapes); (e) long texts: one token of thousands of characters (digit runs straddling the interpreter's int-conversion limit, identifiers, strings, a run of one alphabet character), thousands of statements, and brackets / calls / dict values nested 30-1500 levels deep, balanced or not; (f) stack-limit sweeps: one of 24 inner expressions (every kind of built-in call on real bucket data, literals) wrapped in d brackets / calls / dict values, on a store of each backend: the depth at which it first fails is found by bisection (mostly under a reduced interpreter stack limit of 150-333 frames above the caller, in the thorough tier also under the natural limit) and EVERY depth from 40 below to 6 above it is judged. Each is run through aw_query.query with an activation budget; non-trivial = the text is "
         "rejected or was corrupted; signature = (kind, outcome class, innermost raising function)")
-ASSUMPTIONS = ["an exception whose traceback runs the body of a built-in is outside the statement (counted, not judged)",
+ASSUMPTIONS = ["an exception whose traceback runs the body of a built-in is outside the statement (counted, not judged) - unless a RecursionError is in its cause/context chain: the stack ran out because of how deeply the text is nested, and that must come out as a query error wherever it struck",
                "a malformed text that the interpreter accepts and evaluates satisfies 'yields a value' (counted as lenient_accept)",
                "termination is restated as: at most 5000 + 3000*len(text) activations of interpreter code AND at most 15 s of processor time (ITIMER_VIRTUAL, not wall clock) per text; a 90 s wall-clock watchdog is inconclusive"]
 
@@ -66,6 +66,8 @@ def setup(ctx):
 def teardown(ctx):
     _S["counter"].stop()
     _S["reg"].restore()
+    for st in _S.get("more_stores", {}).values():
+        st.close()
 
 
 def typed_parameters(reg):
@@ -152,6 +154,15 @@ TARGETED = ["RETURN = nop( )", "RETURN = nop(  \n )", "RETURN = vp1( , 1)", "RET
 
 
 def gen_case(rng, ctx):
+    q = _S.setdefault("sweep_queue", [])
+    if q:
+        return q.pop()
+    quota = 4 if ctx.tier == "quick" else 96
+    if _S.get("sweeps", 0) < quota and rng.random() < (0.0004 if ctx.tier == "quick" else 0.0003):
+        _S["sweeps"] = _S.get("sweeps", 0) + 1
+        q.extend(plan_sweep(ctx, _S["sweeps"] - 1))
+        if q:
+            return q.pop()
     r = rng.random()
     if r < 0.35:
         n = rng.randrange(0, 81)
@@ -191,6 +202,105 @@ def gen_case(rng, ctx):
         return dict(kind="long", text=long_text(rng))
     text, cls, fault = fault_programs(rng)
     return dict(kind="fault", text=text, expect=cls, fault=fault)
+
+
+_W, _A, _WEB = (f'query_bucket("{b}")' for b in qlang.BUCKETS)
+_SWEEP_INNERS = [f'query_bucket_eventcount("{qlang.BUCKETS[0]}")', _A, 'find_bucket("aw-watcher-web")', "nop()", f"sum_durations({_A})",
+                 f"flood({_W})", f"sort_by_duration({_W})", f'merge_events_by_keys({_W}, ["app"])',
+                 f'categorize({_W}, [[["Work"], {{"type": "regex", "regex": "vim"}}]])', f"split_url_events({_WEB})",
+                 f"period_union({_A}, {_W})", f"filter_period_intersect({_W}, {_A})", f"union_no_overlap({_W}, {_A})",
+                 f"limit_events({_W}, 2)", f'chunk_events_by_key({_W}, "app")', f'simplify_window_titles({_W}, "title")',
+                 f'filter_keyvals({_A}, "status", ["not-afk"])', f"sort_by_timestamp({_WEB})", f"concat({_W}, {_A})",
+                 f'query_bucket_eventcount("{qlang.BUCKETS[2]}")', "1", '"s"', '{"k": [1]}', "[]"]
+_SWEEP_OPENERS = [("[", "]"), ("vp1(", ")"), ('{"a": ', "}"), ("[vp1(", ")]")]
+_SWEEP_POSITIONS = ["RETURN = {}", "x = {}; RETURN = x", "RETURN = [1, {}]"]
+
+
+def _sweep_text(inner, opener, position, depth):
+    o, c = opener
+    return position.format(o * depth + inner + c * depth)
+
+
+def _depth_now():
+    import sys
+    f, n = sys._getframe(), 0
+    while f is not None:
+        f, n = f.f_back, n + 1
+    return n
+
+
+def _with_headroom(headroom, fn):
+    """Runs fn() with the interpreter's stack limit set `headroom` frames above the caller (None: the limit as it is).
+    A small stack makes the place where it runs out cheap to reach; what happens there is the same."""
+    import sys
+    if headroom is None:
+        return fn()
+    old = sys.getrecursionlimit()
+    sys.setrecursionlimit(_depth_now() + headroom)
+    try:
+        return fn()
+    finally:
+        sys.setrecursionlimit(old)
+
+
+def plan_sweep(ctx, k):
+    """The k-th sweep of this worker: one built-in call wrapped in ever more brackets / calls / dict values. Somewhere
+    the interpreter's stack runs out; on the way there, EVERY depth must give a value or a query error. The depth at
+    which it first fails is found by bisection, then every depth in a band around it is queued as a case of its own.
+    Most sweeps run under a reduced stack limit (the band is then ~100 levels deep and cheap), some under the natural one."""
+    import aw_query
+    j = ctx.widx + 16 * k
+    inner = _SWEEP_INNERS[j % len(_SWEEP_INNERS)]
+    opener = _SWEEP_OPENERS[(j // len(_SWEEP_INNERS) + j) % len(_SWEEP_OPENERS)]
+    position = _SWEEP_POSITIONS[(j // 7) % len(_SWEEP_POSITIONS)]
+    backend = BACKENDS[(j // 3 + k) % 3]
+    natural = ctx.tier != "quick" and k % 6 == 5
+    headroom = None if natural else [150, 200, 260, 333][(j // 5) % 4]
+    ds = _store_of(backend, ctx).ds
+    start, end = mk_dt(_S["lo"]), mk_dt(_S["hi"])
+
+    def is_value(depth, h=headroom):
+        try:
+            _with_headroom(h, lambda: aw_query.query("q", _sweep_text(inner, opener, position, depth), start, end, ds))
+            return True
+        except Exception:  # noqa: BLE001 - only locating the band here; every depth in it is judged by run_case
+            return False
+
+    top = 1100 if natural else headroom + 10
+    if not is_value(1, None) or not is_value(1) or is_value(top):
+        ctx.count("stack_limit_bands_not_found")
+        return []
+    lo, hi = 1, top
+    while hi - lo > 1:
+        mid = (lo + hi) // 2
+        if is_value(mid):
+            lo = mid
+        else:
+            hi = mid
+    ctx.count("stack_limit_bands_located")
+    ctx.count("stack_limit_bands_located." + ("natural-limit" if natural else "reduced-limit"))
+    return [dict(kind="limit-sweep", text=_sweep_text(inner, opener, position, d), backend=backend, depth=d, first_failing=hi,
+                 inner=inner, headroom=headroom) for d in range(max(1, hi - 40), hi + 7)]
+
+
+def _store_of(backend, ctx):
+    if backend == "memory":
+        return _S["st"]
+    stores = _S.setdefault("more_stores", {})
+    if backend not in stores:
+        stores[backend] = Store(backend, ctx.tmp)
+        qlang.populate(stores[backend].ds, random.Random("c17-data"), 1_600_000_000_000_000)
+    return stores[backend]
+
+
+def _chain_has_recursion_error(ex):
+    seen = 0
+    while ex is not None and seen < 20:
+        if isinstance(ex, RecursionError):
+            return True
+        ex = ex.__cause__ or ex.__context__
+        seen += 1
+    return False
 
 
 _OPENERS = [("[", "]"), ("vp1(", ")"), ('{"a": ', "}"), ("[vp1(", ")]"), ("nop(", ")"), ("(", ")")]
@@ -233,7 +343,7 @@ def run_case(case, ctx):
     import aw_query
     from aw_query.exceptions import QueryException
     text = case["text"]
-    ds = _S["st"].ds
+    ds = _store_of(case.get("backend", "memory"), ctx).ds
     if case["kind"] == "deleted-bucket":
         # the bucket named in the text exists, is queried successfully (both built-ins), and is then deleted
         name = text.split('"')[1]
@@ -257,7 +367,7 @@ def run_case(case, ctx):
     signal.setitimer(signal.ITIMER_VIRTUAL, CPU_BUDGET_S)
     try:
         try:
-            aw_query.query("q", text, start, end, ds)
+            _with_headroom(case.get("headroom"), lambda: aw_query.query("q", text, start, end, ds))
         finally:
             signal.setitimer(signal.ITIMER_VIRTUAL, 0)
             signal.setitimer(signal.ITIMER_REAL, 0)
@@ -290,13 +400,21 @@ def run_case(case, ctx):
                 in_body = True
             tb = tb.tb_next
         where = frames[-1].co_name if frames else "-"
-        if in_body:
+        if _chain_has_recursion_error(ex):
+            # the interpreter's stack ran out - because of how deeply the TEXT is nested, not because of what a built-in
+            # was given - and came out as something else than a query error (whoever re-labelled it on the way)
+            viols.append((f"stack-exhaustion-escaped-as:{type(ex).__name__}@{where}",
+                          f"{type(ex).__name__}: {ex} raised in {where} for a text of {len(text)} chars: {text[:80]!r}…{text[-40:]!r}"))
+        elif in_body:
             ctx.count("builtin_runtime_errors")
             outcome = "builtin:" + outcome
         else:
             viols.append((f"non-query-exception-escaped:{type(ex).__name__}@{where}",
                           f"{type(ex).__name__}: {ex} raised in {where} for text {text!r:.300}"))
     ctx.count("texts_run")
+    if case["kind"] == "limit-sweep":
+        ctx.count("depths_judged_around_the_stack_limit")
+        ctx.count("stack_limit_sweep_outcome." + ("value" if outcome == "value" else "query-error" if not viols else "other"))
     ctx.count("activations_counted", used)
     if case["kind"] in ("fault", "deleted-bucket"):
         ctx.count("class_mapping_checked")
